@@ -203,6 +203,13 @@ def observe(g, opts):
         vcalls.append(list(comp))
         return origF(fgg, comp, *a, **k)
     VM.FGGMultiShape = recF
+    # only the loop over the components matters here; with few iterations the back-pointers of a cyclic grammar can
+    # loop and reconstructing the derivation then runs into the recursion limit: keep that limit (and its cost) low
+    import sys
+    depth, fr = 0, sys._getframe()
+    while fr is not None: depth += 1; fr = fr.f_back
+    old_limit = sys.getrecursionlimit()
+    sys.setrecursionlimit(depth + 160)
     try:
         with warnings.catch_warnings():
             warnings.simplefilter("ignore")
@@ -212,6 +219,7 @@ def observe(g, opts):
     except Exception as e:
         ob["vit_exc_type"] = type(e).__name__; ob["vit_exc"] = "%s: %s" % (type(e).__name__, e)
     finally:
+        sys.setrecursionlimit(old_limit)
         VM.FGGMultiShape = origF
     ob["vit_blocks"] = [[num[x] for x in c if x in num] for c in vcalls]
     ob["block_inputs"] = [[getattr(x, "name", repr(x)) for x in ins] for ins, _ in calls]
@@ -249,8 +257,17 @@ def fresh_twin(spec, path, rounds):
 
 def run_stream(tier, seed, SCC, NTG, SPO):
     """returns (violations, coverage dict)"""
+    import torch
+    nthreads = torch.get_num_threads()
+    torch.set_num_threads(1)       # tiny tensors: threads only cost (and one thread keeps the twin comparison bit-exact)
+    try:
+        return _run_stream(tier, seed, SCC, NTG, SPO)
+    finally:
+        torch.set_num_threads(nthreads)
+
+def _run_stream(tier, seed, SCC, NTG, SPO):
     rng = random.Random(seed * 31 + 19)
-    n_cases = 180 if tier == "quick" else 3000
+    n_cases = 150 if tier == "quick" else 3000
     violations = []
     wire = {"ntg": [], "scc": [], "spo": [], "vit": []}     # (value, case, observation tag)
     stats = dict(histories=0, queries=0, rounds_counts_unchanged=0, rounds_decomposition_changed=0,
@@ -352,7 +369,7 @@ def run_stream(tier, seed, SCC, NTG, SPO):
                     case=snap, observed=dict(exception=ob.get("vit_exc"), blocks=ob["vit_blocks"], nonterminals=ob["names"], rules=ob["rules"]),
                     expected=dict(exception=twin.get("vit_exc"), blocks=twin["vit_blocks"]), oracle="exception on a valid input; fresh twin as reference",
                     corr="C19_sum_products_order / corr:sporder (viterbi)", call="fggs.viterbi(fgg, start_asst): " + call))
-            elif vflat == ob["nts"] or "vit_exc_type" not in ob:
+            if vflat == ob["nts"] or "vit_exc_type" not in ob:
                 # the loop over the components was completed (an exception, if any, came from reconstructing the derivation)
                 wire["vit"].append(((ob["nts"], ob["rules"], ob["vit_blocks"], [x for b in ob["vit_blocks"] for x in b]), snap, ob))
             # --- what the round did to the dependency structure (coverage only)
